@@ -174,7 +174,17 @@ def run_C18(case):
     cfg = case["config"]
     h = hashlib.sha256()
     try:
-        log, spans, snaps, ok, why, model = record_history(cfg, case["ops"])
+        ops_used = list(case["ops"])
+        log, spans, snaps, ok, why, model = record_history(cfg, ops_used)
+        # every cut of the log is enumerated, so the history is shortened (from
+        # its end) until its log fits the per-history budget
+        cap = case.get("max_events", 700)
+        while ok and len(log) > cap and len(ops_used) > 1:
+            ops_used = ops_used[: max(1, len(ops_used) * 2 // 3)]
+            log, spans, snaps, ok, why, model = record_history(cfg, ops_used)
+            res.stats["history_shortened_to_fit_cut_budget"] += 1
+        case = dict(case)
+        case["ops"] = ops_used
         if not ok:
             res.foreign = why
             res.digest = h.hexdigest()
@@ -306,4 +316,5 @@ def gen_C18(rng, tier, seed):
             rules.append([O.enc(a), rng.choice(["domain", "path1"])])
         c["ops"].insert(pos, {"op": "clear", "default": rng.choice([None, "domain", "path1"]), "rules": rules})
     c["inline"] = [[rng.random(), rng.random() < 0.5] for _ in range(rng.choice([0, 1, 2]))]
+    c["max_events"] = 700 if tier == "quick" else 1500
     return c
